@@ -1,6 +1,6 @@
 P docex1 blk 1 arr 2 ! s 48656c6c6f b0
 P docex2 blk 1 arr 2 ! b0 b1
-P docex3 blk 1 arr 2 ~ b1 b0
+P docex3 blk 1 arr 2 ~ b1 neg n 0 2
 P docex4 blk 1 arr 2 op mul n 0 5m n 0 10 n 0 3000
 P docex5 blk 1 arr 2 op div n 0 5m n 0 5 n 0 60
 P docex6 blk 1 arr 2 op mod n 0 17 n 0 12 n 0 5
